@@ -4,6 +4,14 @@ use pushr::push::index::Index;
 use pushr::push::item::{Item, PushType};
 use pushr::push::vector::{BoolVector, FloatVector, IntVector};
 
+/// A vector as a program builds it: element by element, so with SPARE CAPACITY (len < capacity) for odd lengths.
+/// Nothing observable may depend on the capacity.
+fn roomy<T>(v: Vec<T>) -> Vec<T> {
+    let mut out = Vec::with_capacity(v.len() + if v.len() % 2 == 1 { 5 } else { 0 });
+    for x in v { out.push(x); }
+    out
+}
+
 pub fn item_to_sx(it: &Item) -> Sx {
     match it {
         Item::List { items } => {
@@ -44,9 +52,9 @@ pub fn sx_to_item(s: &Sx) -> Option<Item> {
         4 => Item::int(l.get(1)?.as_i32()?),
         5 => Item::index(Index { current: l.get(1)?.as_usize()?, destination: l.get(2)?.as_usize()? }),
         6 => Item::float(l.get(1)?.as_f32()?),
-        7 => Item::boolvec(BoolVector::new(l.get(1)?.as_l()?.iter().map(|b| b.as_bool()).collect::<Option<_>>()?)),
-        8 => Item::intvec(IntVector::new(l.get(1)?.as_l()?.iter().map(|z| z.as_i32()).collect::<Option<_>>()?)),
-        9 => Item::floatvec(FloatVector::new(l.get(1)?.as_l()?.iter().map(|f| f.as_f32()).collect::<Option<_>>()?)),
+        7 => Item::boolvec(BoolVector::new(roomy(l.get(1)?.as_l()?.iter().map(|b| b.as_bool()).collect::<Option<_>>()?))),
+        8 => Item::intvec(IntVector::new(roomy(l.get(1)?.as_l()?.iter().map(|z| z.as_i32()).collect::<Option<_>>()?))),
+        9 => Item::floatvec(FloatVector::new(roomy(l.get(1)?.as_l()?.iter().map(|f| f.as_f32()).collect::<Option<_>>()?))),
         _ => return None,
     })
 }
@@ -129,8 +137,8 @@ fn fill<T: Clone + std::fmt::Display + PartialEq + PushPrint>(st: &mut PushStack
 fn sx_to_msg(m: &Sx) -> Option<PushMessage> {
     let m = m.as_l()?;
     Some(PushMessage::new(
-        IntVector::new(m.get(0)?.as_l()?.iter().map(|z| z.as_i32()).collect::<Option<_>>()?),
-        BoolVector::new(m.get(1)?.as_l()?.iter().map(|b| b.as_bool()).collect::<Option<_>>()?),
+        IntVector::new(roomy(m.get(0)?.as_l()?.iter().map(|z| z.as_i32()).collect::<Option<_>>()?)),
+        BoolVector::new(roomy(m.get(1)?.as_l()?.iter().map(|b| b.as_bool()).collect::<Option<_>>()?)),
     ))
 }
 
@@ -257,9 +265,9 @@ fn fill_state(s: &Sx, graphs: Vec<Graph>) -> Option<PushState> {
     fill(&mut st.index_stack, &l[4], |x| { let p = x.as_l()?; Some(Index { current: p.get(0)?.as_usize()?, destination: p.get(1)?.as_usize()? }) })?;
     fill(&mut st.int_stack, &l[5], |x| x.as_i32())?;
     fill(&mut st.name_stack, &l[6], |x| x.as_string())?;
-    fill(&mut st.bool_vector_stack, &l[7], |x| Some(BoolVector::new(x.as_l()?.iter().map(|b| b.as_bool()).collect::<Option<_>>()?)))?;
-    fill(&mut st.float_vector_stack, &l[8], |x| Some(FloatVector::new(x.as_l()?.iter().map(|b| b.as_f32()).collect::<Option<_>>()?)))?;
-    fill(&mut st.int_vector_stack, &l[9], |x| Some(IntVector::new(x.as_l()?.iter().map(|b| b.as_i32()).collect::<Option<_>>()?)))?;
+    fill(&mut st.bool_vector_stack, &l[7], |x| Some(BoolVector::new(roomy(x.as_l()?.iter().map(|b| b.as_bool()).collect::<Option<_>>()?))))?;
+    fill(&mut st.float_vector_stack, &l[8], |x| Some(FloatVector::new(roomy(x.as_l()?.iter().map(|b| b.as_f32()).collect::<Option<_>>()?))))?;
+    fill(&mut st.int_vector_stack, &l[9], |x| Some(IntVector::new(roomy(x.as_l()?.iter().map(|b| b.as_i32()).collect::<Option<_>>()?))))?;
     for m in l[10].as_l()? { st.input_stack.push(sx_to_msg(m)?); }
     for m in l[11].as_l()? { st.output_stack.push(sx_to_msg(m)?); }
     if graphs.len() > 100 { return None; }
